@@ -594,6 +594,53 @@ fn roundtrip<T: serde::Serialize + serde::de::DeserializeOwned + PartialEq + std
     }
 }
 
+
+/// Self-equality must not depend on *which view of the same storage* is compared: a value compared
+/// with itself in place, with a clone, with its owned conversion, through a borrowed or owned
+/// ValueCow gives one and the same answer (true, or false for anything holding NaN).  An identity
+/// short-cut (`ptr == ptr => equal`) breaks exactly this.
+fn self_equality(report: &Report) {
+    let mut vals: Vec<V> = leaves();
+    for f in [f64::NAN, f64::INFINITY, f64::NEG_INFINITY, 0.0, -0.0] {
+        vals.push(V::Float(f));
+        vals.push(V::Arr(vec![V::Int(1), V::Float(f)]));
+        vals.push(V::obj(&[("k", V::Float(f))]));
+        vals.push(V::Arr(vec![V::obj(&[("k", V::Arr(vec![V::Float(f)]))])]));
+    }
+    let mut n = 0u64;
+    for d in &vals {
+        n += 1;
+        report.eval();
+        let r = guard(|| {
+            let v = d.to_liquid();
+            let c = v.clone();
+            let tv = v.to_value();
+            let cb = ValueCow::Borrowed(&v);
+            let co = ValueCow::Owned(v.clone());
+            vec![
+                ("in place (ValueViewCmp of the same storage)", ValueViewCmp::new(&v) == ValueViewCmp::new(&v)),
+                ("v == v", v == v),
+                ("clone == v", c == v),
+                ("to_value() == v", tv == v),
+                ("ValueCow::Borrowed(&v) == v", cb == v),
+                ("ValueCow::Borrowed(&v) == ValueCow::Borrowed(&v)", cb == ValueCow::Borrowed(&v)),
+                ("ValueCow::Owned(clone) == v", co == v),
+                ("as_view() vs &v", ValueViewCmp::new(v.as_view()) == ValueViewCmp::new(&v)),
+            ]
+        });
+        match r {
+            Err(pi) => report.violation(&format!("C12|self-equality|{}", pi.sig()), n, json!({"kind":"views","value":d.to_json()}), pi.describe()),
+            Ok(rows) => {
+                if rows.iter().any(|(_, e)| *e != rows[0].1) {
+                    report.violation("C12|self-equality-depends-on-the-view", n, json!({"kind":"views","value":d.to_json(),"answers":rows.iter().map(|(l, e)| json!([l, e])).collect::<Vec<_>>()}), format!("{}: {:?}", d.to_json(), rows));
+                }
+            }
+        }
+    }
+    report.nontrivial.fetch_add(n, Ordering::Relaxed);
+    report.family(FamilyStat { name: "self-equality through every view".into(), cases: n, nontrivial: n, skipped: 0, note: "every leaf plus NaN / infinities / signed zeros alone and nested in arrays and objects; 8 ways of comparing a value with itself must agree".into() });
+}
+
 fn integers(report: &Report) {
     let mut n = 0u64;
     let big: [u64; 6] = [i64::MAX as u64 - 1, i64::MAX as u64, i64::MAX as u64 + 1, i64::MAX as u64 + 2, u64::MAX - 1, u64::MAX];
@@ -772,5 +819,6 @@ pub fn run(tier: Tier) -> i32 {
     }
     derive_family(&report);
     integers(&report);
+    self_equality(&report);
     report.finish()
 }
